@@ -33,6 +33,7 @@ def run(check: Check, repo: Repo, tier: str) -> None:
     X.memo_key_cover(check, repo)
     X.memo_discovery(check, repo, repo.package_modules('execution'))
     X.nonnull_after_completion(check, repo)
+    X.null_by_identity(check, repo)
     G.param_readonly(check, list(repo.mod("error.located_error").functions()))
     X.serial(check, repo)
     X.key_order(check, repo)
